@@ -44,7 +44,14 @@ def make(rng, sid, harness, tmpbase):
     bad = rng.random() < 0.2
     files = {}
     if single:
-        files[b"/srv/one.conf"] = rng.choice(BAD if bad else CONTENTS)
+        # a single absolute file; a third of them behind a long path (NAME_MAX < length < PATH_MAX) next to a file whose name
+        # is a prefix of theirs
+        if rng.random() < 0.33:
+            d = b"/srv/" + b"/".join([b"d" * 60] * rng.randint(4, 6))
+            files[d + b"/app.conf.local"] = rng.choice(BAD if bad else CONTENTS)
+            files[d + b"/app.conf"] = b"other=1\n"
+        else:
+            files[b"/srv/one.conf"] = rng.choice(BAD if bad else CONTENTS)
     else:
         # the name given to the tool: base name and suffix are split at the last dot
         base = rng.choice([b"app", b"app", b"org.example.app", b"a.b"])
@@ -69,7 +76,8 @@ def make(rng, sid, harness, tmpbase):
     for p, c in sorted(files.items()):
         s.file((root.encode() + p) if single else p, c)
     if single:
-        name = root + "/srv/one.conf"
+        one = sorted(files, key=len)[-1]         # the file itself (its neighbour with the shorter name is not asked for)
+        name = root + one.decode()
         s.add("RF", 0, h(name.encode()), h(delim), h(comment))
     else:
         name = base.decode() + ".conf"
